@@ -66,6 +66,11 @@ impl BufCfg {
 
 #[derive(Clone, Debug, Serialize, Deserialize)]
 pub enum Case {
+    /// bytes channel under transient ENOBUFS on the given transmission attempts: the transport may
+    /// split the payload differently, the bytes must still arrive as sent (an error is acceptable)
+    BytesEnobufs { buf: BufCfg, len: usize, mask: u64 },
+    /// typed channel: a send whose serialisation fails on this thread, then value number `idx`
+    TypedAfterFailedSend { buf: BufCfg, idx: usize },
     /// bytes channel, one message of `len` bytes, same-thread send then recv
     Bytes { buf: BufCfg, len: usize },
     /// bytes channel, receiver task under the scheduler (blocking sends possible)
@@ -242,8 +247,55 @@ fn typed(idx: usize, pad: Option<usize>) -> Result<(), String> {
     }
 }
 
+struct FailsToSerialize;
+impl Serialize for FailsToSerialize {
+    fn serialize<S: serde::Serializer>(&self, _s: S) -> Result<S::Ok, S::Error> {
+        Err(serde::ser::Error::custom("refuses to serialise"))
+    }
+}
+impl<'de> Deserialize<'de> for FailsToSerialize {
+    fn deserialize<D: serde::Deserializer<'de>>(_d: D) -> Result<Self, D::Error> {
+        Ok(FailsToSerialize)
+    }
+}
+
+fn bytes_enobufs(len: usize, mask: u64) -> Result<(), String> {
+    let (tx, rx) = ipc::bytes_channel().map_err(|e| format!("channel: {}", e))?;
+    let data = pattern(len, 1);
+    let h = std::thread::spawn(move || rx.recv());
+    crate::interpose::set_enobufs_mask(mask);
+    crate::interpose::arm();
+    let r = tx.send(&data);
+    crate::interpose::disarm();
+    drop(tx);
+    let got = h.join().map_err(|_| "receiver panicked".to_string())?;
+    match r {
+        Err(_) => Ok(()), // refusing under buffer exhaustion is acceptable
+        Ok(()) => {
+            let got = got.map_err(|e| format!("send of {} bytes under ENOBUFS returned Ok but recv failed: {:?}", len, e))?;
+            if got.len() != len {
+                return Err(format!("sent {} bytes (re-fragmented after ENOBUFS), received {}", len, got.len()));
+            }
+            if let Some(p) = first_diff(&got, &data) {
+                return Err(format!("payload of {} bytes (re-fragmented after ENOBUFS) differs at offset {}", len, p));
+            }
+            Ok(())
+        },
+    }
+}
+
+fn typed_after_failed_send(idx: usize) -> Result<(), String> {
+    let (ftx, _frx) = ipc::channel::<(Vec<u8>, FailsToSerialize)>().map_err(|e| e.to_string())?;
+    if ftx.send((pattern(300, 9), FailsToSerialize)).is_ok() {
+        return Err("a value whose serialisation fails was accepted".into());
+    }
+    typed(idx, None)
+}
+
 pub fn run_case(c: &Case) -> Result<(), String> {
     match c {
+        Case::BytesEnobufs { len, mask, .. } => bytes_enobufs(*len, *mask),
+        Case::TypedAfterFailedSend { idx, .. } => typed_after_failed_send(*idx),
         Case::Bytes { len, .. } => {
             bytes_same_thread(*len)
         },
@@ -259,6 +311,8 @@ pub fn run_case(c: &Case) -> Result<(), String> {
 
 pub fn cfg_of(c: &Case) -> Cfg {
     match c {
+        Case::BytesEnobufs { buf, .. } => buf.cfg(true),
+        Case::TypedAfterFailedSend { buf, .. } => buf.cfg(false),
         Case::Bytes { buf, .. } => buf.cfg(false),
         Case::BytesThreaded { buf, .. } => buf.cfg(true),
         Case::Typed { buf, .. } => buf.cfg(false),
@@ -354,6 +408,16 @@ fn part(tier: Tier) -> Part {
                 threaded.push(Case::BytesThreaded { buf: b.clone(), len });
             }
         }
+        // the same payload must arrive however ENOBUFS makes the transport split it
+        for b in [BufCfg::Fake(4608), BufCfg::Default] {
+            if let Ok((f1, _)) = b.sizes() {
+                for len in [2001usize, f1 / 2 + 1000, f1 - 1, f1, f1 + 1, 2 * f1 + 5] {
+                    for mask in [1u64, 2, 3, 5, 6] {
+                        threaded.push(Case::BytesEnobufs { buf: b.clone(), len, mask });
+                    }
+                }
+            }
+        }
         if !quick {
             // (c) powers of two up to 64 MiB and 64 MiB +- 1
             let mut l = 1usize << 12;
@@ -394,6 +458,9 @@ fn part(tier: Tier) -> Part {
     for idx in 0..g.len() {
         typed_cases.push(Case::Typed { buf: tbuf.clone(), idx, pad: None });
     }
+    for idx in (0..g.len()).step_by(if quick { 5 } else { 1 }) {
+        typed_cases.push(Case::TypedAfterFailedSend { buf: tbuf.clone(), idx });
+    }
     let stride = if quick { 7 } else { 1 };
     for idx in (0..g.len()).step_by(stride) {
         let base = bincode::serialize(&padded(&g[idx], Some(0))).unwrap().len();
@@ -424,7 +491,11 @@ fn part(tier: Tier) -> Part {
     p.evaluations = n_dense + n_thr + n_typed;
     // distinct & non-trivial: every case is a distinct (configuration, length | value, padding);
     // non-trivial = not the empty payload
-    p.distinct = p.evaluations.saturating_sub(if inproc { 2 } else { 12 });
+    let nontrivial = |c: &Case| match c {
+        Case::Bytes { len, .. } | Case::BytesThreaded { len, .. } => *len > 0,
+        _ => true,
+    };
+    p.distinct = (dense.iter().filter(|c| nontrivial(c)).count() + threaded.iter().filter(|c| nontrivial(c)).count() + typed_cases.iter().filter(|c| nontrivial(c)).count()) as u64;
     for (c, e) in fails {
         p.fail(format!("{} :: {:?}", e, c), serde_json::to_value(&c).unwrap());
     }
